@@ -85,14 +85,21 @@ func (r *Result) CalculateWinnerRewards(potIdx int, l *LevelInfo) {
 	winners := l.rank.GetWinners()
 
 	// Calculate rewards
-	based := l.Total / int64(len(winners))
-	remainder := l.Total % int64(len(winners))
+	count := int64(len(winners))
+	based := l.Total / count
+	remainder := l.Total % count
+
+	// Odd chips continue from the winner after the one who got the last odd chip
+	// of the previous level, so shares of the same pot differ by one chip at most
+	pot := r.Pots[potIdx]
+	offset := pot.oddChips % count
+	pot.oddChips += remainder
 
 	for i, wIdx := range winners {
 
 		reward := based
 
-		if int64(i) < remainder {
+		if (int64(i)-offset+count)%count < remainder {
 			reward += 1
 		}
 
